@@ -113,8 +113,7 @@ def in_known_class(f, nbatches, pastified):
 @st.composite
 def cases(draw, tier, pastified=False, bounded=True, chunked=True):
     if pastified:
-        prof = DENSE.copy(un_temp=('once', 'historically'), bin_temp=('since',), tbin=('since',), max_bound=4,
-                          no_future_under_past=True)
+        prof = DENSE.copy(un_temp=('once', 'historically'), bin_temp=('since',), tbin=('since',), max_bound=4)
     else:
         prof = DENSE_PAST.copy(max_bound=6)
     if not bounded:
